@@ -307,7 +307,7 @@ let cc_list (ds : (M.n * M.z) list) : string =
 
 let header_case (toks : string list) : string =
   match toks with
-  | [ "T"; name; value ] ->
+  | [ ("T" | "TM"); name; value ] ->
     let nm = String.lowercase_ascii (str_of_bytes (bytes_of_hex name)) in
     let v = bytes_of_hex value in
     let twice parse write =
